@@ -1014,7 +1014,8 @@ def main():
     L = 4 if thorough else 3
     chk.bound(histories='all operation sequences of length <= %d: orbit services (12 operations), centre-manifold service (8), manifold service (10), libration-point service (10, incl. '
                         're-targeting a centre manifold the point handed out); symbolic periods, states, steps, tolerances, energies and (integer-declared) degrees: every equality pattern explored by the solver' % L,
-              keys='three argument shapes used at the call sites, 3 symbolic leaves each', state_dimension=2)
+              keys='three argument shapes used at the call sites, 3 symbolic leaves each', state_dimension=2,
+              manifold_request_parameters='every parameter of the real compute_manifold signature: two consecutive requests differing in exactly that parameter (symbolic pair, or two concrete values for method/order/NN)')
     chk.assume('propagation, monodromy/STM, eigen-analysis, the corrector and continuation pipelines, the Hamiltonian pipeline, the map constructor and the manifold computation are uninterpreted functions of '
                'all logical inputs they read, with functional-consistency axioms',
                'orbit services: the reference is a hand-written fresh-object model; centre-manifold, manifold and libration-point services: the reference is a second instance of the REAL class put into the same logical state',
